@@ -1,2 +1,72 @@
-all:
-	@echo "nothing to build yet"
+# Rebuilds every simulator configuration from $(BASEGRAPH_INCLUDE) (default: /repo's working tree) with header deps.
+BASEGRAPH_INCLUDE ?= /repo/include
+B := build
+STD ?= -std=c++17
+COMMON := -I$(BASEGRAPH_INCLUDE) -Isim -pthread -MMD -MP -w
+WRAP := -static-libstdc++ -Wl,--wrap=fopen64,--wrap=read,--wrap=write,--wrap=writev -pthread
+
+CONFIGS := g2 g0 gd ca c2 g14 ts
+QUICK_CONFIGS := g2 gd ca ts
+
+CXX_g2 := g++
+FLAGS_g2 := -O2 $(STD)
+CXX_g0 := g++
+FLAGS_g0 := -O0 $(STD)
+CXX_gd := g++
+FLAGS_gd := -O1 $(STD) -D_GLIBCXX_DEBUG -D_GLIBCXX_DEBUG_PEDANTIC -fsanitize=address,undefined -fno-sanitize-recover=all -fno-omit-frame-pointer
+CXX_ca := clang++
+FLAGS_ca := -O1 $(STD) -D_GLIBCXX_ASSERTIONS -fsanitize=address,undefined,float-cast-overflow -fno-sanitize-recover=all -fno-omit-frame-pointer
+CXX_c2 := clang++
+FLAGS_c2 := -O2 $(STD)
+CXX_g14 := g++
+FLAGS_g14 := -O2 -std=c++14
+CXX_ts := clang++
+FLAGS_ts := -O1 $(STD) -fsanitize=thread -fno-omit-frame-pointer
+# the scheduler and the wrap layer are invisible to the sanitizers on purpose (see sim/racesim/sched.h)
+PLAINFLAGS_ts := -O1 $(STD)
+
+# name|adapter for every Runner instantiation
+SP := _SP_
+INSTS := \
+ run_LD_none|gs::AdLD<BaseGraph::NoLabel> run_LD_int|gs::AdLD<int> run_LD_unsigned|gs::AdLD<unsigned> run_LD_double|gs::AdLD<double> \
+ run_LD_char|gs::AdLD<char> run_LD_string|gs::AdLD<std::string> run_LD_struct|gs::AdLD<gs::SLabel> \
+ run_LD_i8|gs::AdLD<signed$(SP)char> run_LD_u8|gs::AdLD<unsigned$(SP)char> run_LD_i16|gs::AdLD<short> run_LD_u16|gs::AdLD<unsigned$(SP)short> \
+ run_LD_i64|gs::AdLD<long$(SP)long> run_LD_u64|gs::AdLD<unsigned$(SP)long$(SP)long> run_LD_float|gs::AdLD<float> \
+ run_LU_none|gs::AdLU<BaseGraph::NoLabel> run_LU_int|gs::AdLU<int> run_LU_unsigned|gs::AdLU<unsigned> run_LU_double|gs::AdLU<double> \
+ run_LU_char|gs::AdLU<char> run_LU_string|gs::AdLU<std::string> run_LU_struct|gs::AdLU<gs::SLabel> \
+ run_LU_i8|gs::AdLU<signed$(SP)char> run_LU_u8|gs::AdLU<unsigned$(SP)char> run_LU_i16|gs::AdLU<short> run_LU_u16|gs::AdLU<unsigned$(SP)short> \
+ run_LU_i64|gs::AdLU<long$(SP)long> run_LU_u64|gs::AdLU<unsigned$(SP)long$(SP)long> run_LU_float|gs::AdLU<float> \
+ run_DM|gs::AdDM run_UM|gs::AdUM run_DW|gs::AdDW run_UW|gs::AdUW
+INSTNAMES := $(foreach i,$(INSTS),$(firstword $(subst |, ,$(i))))
+adapter = $(subst _SP_, ,$(word 2,$(subst |, ,$(filter $(1)|%,$(INSTS)))))
+
+.PHONY: all quick clean $(addprefix cfg-,$(CONFIGS))
+all: $(addprefix cfg-,$(CONFIGS))
+quick: $(addprefix cfg-,$(QUICK_CONFIGS))
+
+define CONFIG_RULES
+cfg-$(1): $(B)/bgsim.$(1)
+$(B)/$(1)/%.inst.o: sim/main/inst.cpp
+	@mkdir -p $$(dir $$@)
+	$$(CXX_$(1)) $$(FLAGS_$(1)) $(COMMON) '-DGS_NAME=$$*' '-DGS_ADAPTER=$$(call adapter,$$*)' -c $$< -o $$@
+$(B)/$(1)/main.o: sim/main/main.cpp
+	@mkdir -p $$(dir $$@)
+	$$(CXX_$(1)) $$(FLAGS_$(1)) $(COMMON) -c $$< -o $$@
+$(B)/$(1)/step.o: sim/main/step.cpp
+	@mkdir -p $$(dir $$@)
+	$$(CXX_$(1)) $$(FLAGS_$(1)) $(COMMON) -c $$< -o $$@
+$(B)/$(1)/wrap.o: sim/iosim/wrap.cpp
+	@mkdir -p $$(dir $$@)
+	$$(CXX_$(1)) $$(if $$(PLAINFLAGS_$(1)),$$(PLAINFLAGS_$(1)),$$(FLAGS_$(1))) $(COMMON) -c $$< -o $$@
+$(B)/$(1)/sched.o: sim/racesim/sched.cpp
+	@mkdir -p $$(dir $$@)
+	$$(CXX_$(1)) $$(if $$(PLAINFLAGS_$(1)),$$(PLAINFLAGS_$(1)),-O1 $(STD)) $(COMMON) -c $$< -o $$@
+$(B)/bgsim.$(1): $(B)/$(1)/main.o $(B)/$(1)/step.o $(B)/$(1)/wrap.o $(B)/$(1)/sched.o $(foreach n,$(INSTNAMES),$(B)/$(1)/$(n).inst.o)
+	$$(CXX_$(1)) $$(FLAGS_$(1)) $$^ $(WRAP) -o $$@
+endef
+$(foreach c,$(CONFIGS),$(eval $(call CONFIG_RULES,$(c))))
+
+clean:
+	rm -rf $(B)
+
+-include $(wildcard $(B)/*/*.d)
